@@ -24,6 +24,7 @@ type ConcPayload struct {
 
 type ConcScript struct {
 	Input string     `json:"input,omitempty"` // what user_input serves
+	NilIO bool       `json:"nil_io,omitempty"` // the interpreter is created with prolog.New(nil, nil): no reader, no writer
 	Steps []ConcStep `json:"steps"`
 }
 
